@@ -622,7 +622,7 @@ def shorten(v, n=200):
 
 
 def check_suite(ctx, name, reqs, pred=None, kf=None, exhaustive=False, nontrivial=None,
-                classes=None, kinds=None, compare=True, split=False):
+                classes=None, kinds=None, compare=True, split=False, cross=False, cross_skip=None):
     """reqs: list of (fn, args).  Runs model and implementation(s), records every
     correspondence difference in ctx.diffs, evaluates the extracted theorem predicate
     [pred] (a model-driver function taking the request arguments followed by the
@@ -691,6 +691,28 @@ def check_suite(ctx, name, reqs, pred=None, kf=None, exhaustive=False, nontrivia
                                   impl=o[i], impl_repr=shorten(safe_dec(o[i])),
                                   model=model_for[k][i] if k in model_for else None,
                                   predicate_reply=pres[i])
+    ncross = 0
+    if cross and "py" in outs and "c" in outs:
+        # the property itself for C05: both backends return the same value / exception type
+        bad = [i for i, (a, b) in enumerate(zip(outs["py"], outs["c"])) if a != b]
+        if bad and cross_skip:
+            for fid, cls in cross_skip:
+                if not bad:
+                    break
+                cres = run_sharded("model", ctx.overlay, [cls + " " + args_of(lines[i]) for i in bad], shards=1)
+                still = []
+                for i, r in zip(bad, cres):
+                    if r == "T":
+                        ctx.known_hits[fid] = ctx.known_hits.get(fid, 0) + 1
+                    else:
+                        still.append(i)
+                bad = still
+        for i in bad:
+            ncross += 1
+            if len(ctx.violations) < 50:
+                ctx.violation(kind="predicate-failure", suite=name, predicate="pure-Python result == compiled result",
+                              request=lines[i], request_repr=shorten(reqs[i]), py=outs["py"][i], c=outs["c"][i],
+                              py_repr=shorten(safe_dec(outs["py"][i])), c_repr=shorten(safe_dec(outs["c"][i])))
     keys = nontrivial(reqs) if nontrivial else set(lines)
     ctx.count(name, len(reqs) * max(1, len(impl_kinds)), keys,
               samples=[{"suite": name, "request": shorten(reqs[i], 120),
@@ -699,7 +721,9 @@ def check_suite(ctx, name, reqs, pred=None, kf=None, exhaustive=False, nontrivia
               exhaustive=exhaustive, hist=classes)
     s = ctx.suites[name]
     s["correspondence_diffs"] = s.get("correspondence_diffs", 0) + ndiff
-    s["predicate_failures"] = s.get("predicate_failures", 0) + nfail
+    s["predicate_failures"] = s.get("predicate_failures", 0) + nfail + ncross
+    if cross:
+        s["cross_backend_compared"] = True
     if pred:
         s["predicate"] = pred
     return outs
